@@ -254,6 +254,15 @@ def call_external(self, st, name, args, kwargs, node):
         r = fold_regex_call(self, name, args, kwargs)
         if r is not KeyError:
             return [(st, "val", r)]
+    if name in ("codecs.decode", "codecs.encode") and 1 <= len(args) <= 3 and not kwargs and all(isinstance(a, (str, bytes)) for a in args) \
+            and getattr(self, "int_sat", 2) > 2:
+        import codecs as _codecs
+        try:
+            r = getattr(_codecs, name.split(".")[1])(*args)
+        except Exception as e:     # noqa
+            return self.raise_exc(st, type(e).__name__, node, "codecs", str(e))
+        if isinstance(r, (str, bytes)):
+            return [(st, "val", r)]
     if name in ("time.time",):
         return [(st, "val", Top("time", True))]
     if name.startswith(("operator.", "functools.", "itertools.", "collections.")):
